@@ -409,6 +409,11 @@ mutant("c05-callable-iter-extra-call", "C05", "builtins.py",
        "    while value != sentinel:\n        yield value\n        value = await subject()",
        "    while value != sentinel:\n        yield value\n        value = await subject()\n    await subject()", rule="R05.11")
 
+mutant("c02-sorted-reverse-by-reversing", "C02", "builtins.py",
+       "            keyed_items.sort(key=lambda ki: ki[0], reverse=reverse)\n            return [item for _, item in keyed_items]",
+       "            keyed_items.sort(key=lambda ki: ki[0])\n            return [item for _, item in (reversed(keyed_items) if reverse else keyed_items)]",
+       rule="R02.8")
+
 # --------------------------------------------------------------------------- C13
 mutant("c13-handlers-reordered", "C13", "contextlib.py",
        "            except StopAsyncIteration as exc:\n                return exc is not exc_tb\n            except RuntimeError as exc:\n                if exc is exc_val:\n                    return False\n                # Handle promotion of unhandled Stop[Async]Iteration to RuntimeError\n                if isinstance(exc_val, (StopIteration, StopAsyncIteration)):\n                    if exc.__cause__ is exc_val:\n                        return False\n                raise\n            except exc_type as exc:\n                if exc is not exc_val:\n                    raise\n                return False\n",
